@@ -48,3 +48,16 @@ prop(
     design_ref="5/C08",
     bounded="bounded.c08_tables",
 )
+
+prop(
+    "C16",
+    ["contracts.c16_decorators"],
+    "proof",
+    "contract-based deductive verification: forwarding contracts on PoolDecorator/Logger, trace contract on Logger.demand, class-resolution obligations decided on the real MRO",
+    "each decorator level returns the target's supply/utilisation/allocation with an empty frame and trace (so by induction on the stack depth any stack reports the base pool's values); Logger.demand is proved to emit exactly one record, before the write, carrying the new value and the target's pre-state; template validation is proved against the very key set used at emission",
+    "trusted: pyvc's Python semantics; %-formatting raises KeyError iff the template names a key the mapping lacks (assumed); logging emits one record per Logger.log call; well-behaved pool",
+    trusted=["assumed: 'template' % mapping raises KeyError iff the template names a key that is not in the mapping; TypeError/ValueError for malformed specifiers",
+             "assumed: logging.getLogger(name) is a function of the name; Logger.log on an enabled logger emits one record",
+             "hypothesis: the wrapped pool is well-behaved (pure reads, faithful demand store)"],
+    design_ref="5/C16",
+)
